@@ -544,8 +544,9 @@ def cmd_baseline_off():
     bdir = os.path.join(BUILD_ROOT, 'baseline-off-%d' % os.getpid())
     os.makedirs(bdir, exist_ok=True)
     try:
-        r = run(['cmake', '-G', 'Ninja', '-S', REPO, '-B', bdir, '-DCMAKE_BUILD_TYPE=Release'], stdout=subprocess.PIPE,
-                stderr=subprocess.STDOUT)
+        # same configuration as the pinned baseline build (/repo/_build): RelWithDebInfo, guard OFF
+        r = run(['cmake', '-G', 'Ninja', '-S', REPO, '-B', bdir, '-DCMAKE_BUILD_TYPE=RelWithDebInfo', '-DCMAKE_C_FLAGS=-Wno-error'],
+                stdout=subprocess.PIPE, stderr=subprocess.STDOUT)
         if r.returncode:
             print(r.stdout.decode(errors='replace')[-3000:])
             return 1
@@ -553,10 +554,11 @@ def cmd_baseline_off():
         if r.returncode:
             print(r.stdout.decode(errors='replace')[-3000:])
             return 1
-        r = run(['ctest', '--test-dir', bdir, '-j8', '--timeout', '900'], stdout=subprocess.PIPE, stderr=subprocess.STDOUT)
+        r = run(['ctest', '--test-dir', bdir, '-j8', '--timeout', '900', '--output-junit', os.path.join(bdir, 'junit.xml')],
+                stdout=subprocess.PIPE, stderr=subprocess.STDOUT)
         out = r.stdout.decode(errors='replace')
         print(out[-6000:])
-        return 0
+        return 0 if r.returncode == 0 else 1
     finally:
         shutil.rmtree(bdir, ignore_errors=True)
 
